@@ -245,9 +245,8 @@ class DefDomain(TagDomain):
               isinstance(blk.test.left, _ast.Name)):
         return False
       b, a = blk.test.comparators[0].id, blk.test.left.id
-      if not any(isinstance(s_, _ast.Assign) and
-                 _ast.unparse(s_.targets[0]) == b and
-                 _ast.unparse(s_.value) == a for s_ in blk.body):
+      if not any(t_ == b and _ast.unparse(v_) == a for s_ in blk.body
+                 for (t_, v_) in _astutil.assign_pairs(s_)):
         return False
       # b = inf before the loop that contains the checkpoint
       n_ = blk
